@@ -16,6 +16,7 @@ package main
 //   panic site=<file:line> src=<hex>      timeout src=<hex>
 
 import (
+	"bytes"
 	"encoding/hex"
 	"encoding/json"
 	"errors"
@@ -23,6 +24,7 @@ import (
 	"hash/fnv"
 	"io/fs"
 	"os"
+	"os/exec"
 	"path/filepath"
 	"sort"
 	"strconv"
@@ -115,6 +117,9 @@ func c12(r *Run) {
 		return
 	}
 	c12Skeletons(r)
+	c12DeepNest(r)
+	c12Branches(r)
+	c12ModeHistory(r)
 	c12Keywords(r)
 	c12Totality(r)
 	c12Args(r)
@@ -1011,6 +1016,188 @@ func c12Replay(r *Run) {
 			}
 		default:
 			r.Internal("replay case has no known stream: " + string(raw))
+		}
+	}
+}
+
+// ---------------------------------------------------------------------------------------------
+// (a2) branch tags: every block kind (every condition / loop / switch form, helper and len() conditions, if-ok)
+// with two or three branch-like leaves inside it on ONE level — a doubled else, an else in a loop after an else, a
+// default after a default, case after default, else inside switch … The blocks are properly nested and closed, so
+// Parse must return a tree (what the surplus branch tags mean is not specified; that it returns is).
+func c12Branches(r *Run) {
+	type blk struct{ open, close string }
+	var blocks []blk
+	for _, o := range append(append([]string(nil), c12If...), "{% if lenGt0(v) %}", "{% if myHelper(v, 1) %}", "{% if cap(v.b) >= 1 %}", "{% if x, ok := f(v).(T); !ok %}", "{% if 1 == v %}") {
+		blocks = append(blocks, blk{o, "{% endif %}"})
+	}
+	for _, o := range c12For {
+		blocks = append(blocks, blk{o, "{% endfor %}"})
+	}
+	for _, o := range append(append([]string(nil), c12Switch...), "{% switch %}{% case lenGt0(v) %}") {
+		blocks = append(blocks, blk{o, "{% endswitch %}"})
+	}
+	leaves := []string{"{% else %}", "{% default %}", "{% case 2 %}", "{% case v == 2 %}", "{% case lenEq0(v) %}", "{% break %}", "{% continue %}", "{% lazybreak 2 %}", "{% exit %}"}
+	n := 0
+	try := func(src, what string) {
+		n++
+		for _, keep := range []bool{false, true} {
+			res := c12ParseWatch([]byte(src), keep)
+			gk := res.kind()
+			r.Count("branches:"+src, true)
+			r.Dist["branches:go:"+gk]++
+			sig := fmt.Sprintf("branches %s go=%s src=%s", what, gk, src)
+			c := map[string]any{"source": src, "keepFmt": keep, "go": gk}
+			switch {
+			case res.Timeout:
+				r.Violate("timeout "+sig, "Parse did not return within 2 s", c)
+			case res.Panic != "":
+				c["panic"] = res.Panic
+				r.Violate("panic site="+c12PanicSite(res.Panic)+" "+sig, "Parse panicked: "+c12FirstLine(res.Panic), c)
+			case gk != "ok":
+				r.Violate(sig, "a properly nested and closed template was rejected: "+res.Err.Error(), c)
+			}
+		}
+	}
+	for _, b := range blocks {
+		for _, l1 := range leaves {
+			for _, l2 := range leaves {
+				try(b.open+"a"+l1+"b"+l2+"c"+b.close, "two")
+			}
+			try(b.open+"a"+l1+"b"+l1+"c"+l1+"d"+b.close, "three")
+			try(b.open+l1+b.close, "bare")
+			// the same one level down, and next to a nested block that has a branch of its own
+			try("{% if v == 1 %}"+b.open+"a"+l1+"b{% else %}c"+l1+b.close+"{% else %}z{% endif %}", "nested")
+		}
+	}
+	r.Notes = append(r.Notes, fmt.Sprintf("branch stream: %d sources x 2 keepFmt values", n))
+}
+
+// ---------------------------------------------------------------------------------------------
+// (a3) the verdict of Parse(src, keepFmt) belongs to THAT pair: sources whose verdict (or tree) differs between the
+// two keepFmt values (a tag broken over two lines, a line break inside the tag brackets) are parsed in one mode,
+// registered, and parsed in the other mode — verdict and tree must be those of the other mode on an empty registry.
+func c12ModeHistory(r *Run) {
+	srcs := []string{"{% if v == 1 %}x{% endif\n%}", "{\n%= v %}", "a{%= v\n%}b", "{% if v == 1 %}\n\tx\n{% endif %}", "{% for i:=0; i<2; i++ %}x{% endfor\n\t%}", "{%\nif v == 1 %}x{% endif %}",
+		"{% if v == 1 %}x{%\n\tendif %}", "{% switch v %}\n{% case 1 %}a{% endswitch\n%}", "x{% endif\n%}", "{\n\t% if v == 1 %}x", "{% if v == 1 %}{\n% endif %}", "a\n\tb{%= v %}\n"}
+	type ref struct {
+		kind, dump string
+	}
+	verdict := func(src string, keep bool) ref {
+		res := c12ParseWatch([]byte(src), keep)
+		v := ref{kind: res.kind()}
+		if res.Tree != nil && v.kind == "ok" {
+			v.dump = string(dyntpl.VerifDumpTree(res.Tree))
+		}
+		return v
+	}
+	for _, src := range srcs {
+		var refs [2]ref
+		for k := 0; k < 2; k++ {
+			dyntpl.VerifResetRegistry()
+			refs[k] = verdict(src, k == 1)
+		}
+		if refs[0] == refs[1] {
+			r.Dist["mode-history:insensitive"]++
+			continue
+		}
+		for first := 0; first < 2; first++ {
+			dyntpl.VerifResetRegistry()
+			hist := []string{}
+			res := c12ParseWatch([]byte(src), first == 1)
+			hist = append(hist, fmt.Sprintf("Parse(src, keepFmt=%v) -> %s", first == 1, res.kind()))
+			if res.Tree != nil && res.kind() == "ok" {
+				dyntpl.RegisterTplKey("c12mode", res.Tree)
+				hist = append(hist, "RegisterTplKey(\"c12mode\", tree)")
+			}
+			for _, second := range []int{1 - first, first, 1 - first} {
+				got := verdict(src, second == 1)
+				hist = append(hist, fmt.Sprintf("Parse(src, keepFmt=%v) -> %s", second == 1, got.kind))
+				r.Count(fmt.Sprintf("mode-history:%s:%d:%d", src, first, second), true)
+				r.Dist["mode-history"]++
+				if got != refs[second] {
+					r.Violate(fmt.Sprintf("mode-history src=%q first=%d second=%d go=%s", src, first, second, got.kind), "Parse(src, keepFmt) gives another verdict or tree after the same source was parsed and registered with the other keepFmt value",
+						map[string]any{"source": src, "history": hist, "verdict": got.kind, "verdict_on_empty_registry": refs[second].kind, "same_tree": got.dump == refs[second].dump})
+					break
+				}
+			}
+		}
+	}
+	dyntpl.VerifResetRegistry()
+}
+
+// ---------------------------------------------------------------------------------------------
+// (a4) nesting far deeper than the skeleton stream goes. The parser recurses once per open block; a fatal stack
+// overflow is not a panic (it cannot be recovered and ends the process), so every depth is parsed in a CHILD
+// process (this binary, `--c12-deepnest <depth> <kind>`), with the Go runtime's default stack limit.
+func c12DeepNestChild(depth, kind string) {
+	n, _ := strconv.Atoi(depth)
+	open_, close_ := "{% if a == 1 %}", "{% endif %}"
+	switch kind {
+	case "for":
+		open_, close_ = "{% for i := 0; i < 1; i++ %}", "{% endfor %}"
+	case "switch":
+		open_, close_ = "{% switch a %}{% case 1 %}", "{% endswitch %}"
+	}
+	src := append(bytes.Repeat([]byte(open_), n), bytes.Repeat([]byte(close_), n)...)
+	t, err := dyntpl.Parse(src, true)
+	fmt.Printf("deepnest-result tree=%v err=%v\n", t != nil, err)
+}
+
+func c12DeepNest(r *Run) {
+	exe, err := os.Executable()
+	if err != nil {
+		r.Internal("C12 deep nesting: cannot find the harness binary: " + err.Error())
+		return
+	}
+	depths := []int{2000, 20000, 100000}
+	if r.Thorough() {
+		depths = []int{2000, 20000, 50000, 100000, 200000}
+	}
+	for _, kind := range []string{"if", "for"} {
+		for _, d := range depths {
+			cmd := exec.Command(exe, "--c12-deepnest", strconv.Itoa(d), kind)
+			var out bytes.Buffer
+			cmd.Stdout, cmd.Stderr = &out, &out
+			done := make(chan error, 1)
+			if err := cmd.Start(); err != nil {
+				r.Internal("C12 deep nesting: cannot start the child process: " + err.Error())
+				return
+			}
+			go func() { done <- cmd.Wait() }()
+			result := ""
+			select {
+			case werr := <-done:
+				txt := out.String()
+				switch {
+				case strings.Contains(txt, "deepnest-result tree=true err=<nil>"):
+					result = "ok"
+				case strings.Contains(txt, "deepnest-result"):
+					result = "rejected"
+				case strings.Contains(txt, "stack overflow"):
+					result = "fatal-stack-overflow"
+				case strings.Contains(txt, "panic:"):
+					result = "panic"
+				default:
+					result = fmt.Sprintf("died (%v)", werr)
+				}
+			case <-time.After(120 * time.Second):
+				_ = cmd.Process.Kill()
+				result = "timeout"
+			}
+			r.Count(fmt.Sprintf("deep-nesting:%s:%d", kind, d), true)
+			r.Dist["deep-nesting:"+result]++
+			if result != "ok" {
+				head := out.String()
+				if len(head) > 600 {
+					head = head[:600]
+				}
+				r.Violate(fmt.Sprintf("deep-nesting kind=%s at=%d:%s", kind, d, result),
+					fmt.Sprintf("Parse of %d properly nested and closed %s blocks (%d bytes) did not return a tree: %s", d, kind, d*len("{% if a == 1 %}{% endif %}"), result),
+					map[string]any{"source": fmt.Sprintf("%d x the opening tag of an %s block, then %d x its closing tag", d, kind, d), "depth": d, "result": result, "child_output_head": head,
+						"replay": "harness/vharness --c12-deepnest " + strconv.Itoa(d) + " " + kind})
+				break // deeper nests of this kind fail the same way
+			}
 		}
 	}
 }
